@@ -90,3 +90,11 @@ func init() {
 		Rule:       "rapid draws a handler tree (leaves default/cache/router/sqlite, merges of 2-3 subtrees up to depth 2, every node wrapped in 0-4 random middlewares), a history of 0-8 (quick) / 0-12 (thorough) valid client messages and a schedule. For each sampled (tree, history) EVERY cut point 0..len(history) is executed three ways: context cancelled with a draining peer, context cancelled with a peer that never reads, inbound channel closed with a draining peer. After each: ServeNostr returned within 1s of simulated time, goroutine census equals the census before the session, every router registry is empty, prometheus connection and subscription gauges are 0; then the handler context is cancelled and the bubble must end without blocked goroutines. evaluations = sampled (tree, history) pairs. Non-trivial: history of at least two messages; distinct = distinct (case, schedule) hash. The WebSocket clause (send timeout) is checked by the ws-session engine runs that are part of this check.",
 		Assumptions: []string{"cut points are the positions between messages of the pipelined history; where within the in-flight processing the cut lands is decided by the schedule", "a goroutine is identified by its stack with addresses and arguments removed"}}
 }
+
+func init() {
+	props["C12"] = propCfg{Level: "exploration", QuickS: 45, ThoroughS: 600,
+		Components: []string{"mocrelay.ServeMux -> Relay.ServeHTTP, serveReadLoop/serveRead gate chain, serveWriteLoop, rate limiter (x/time/rate), ping ticker, write deadline (instrumented)", "ParseClientMsg, ValidClientMsg, Event.Verify (btcec schnorr)", "coder/websocket on BOTH ends (real handshake, framing, masking, control frames)"},
+		Stubs:      []string{"the TCP connection (two in-memory pipes joined by pump goroutines: chunk size 1 B - 64 KiB, every chunk a scheduler decision, stall, reset)", "net/http server (a RoundTripper calls ServeHTTP with a hijackable ResponseWriter)", "the handler behind the relay (records what it receives, emits a scripted stream of all 7 server message types)", "wall clock (rate limiter, ping and deadlines run on the simulated clock, with jumps)"},
+		Rule:       "rapid draws relay options (send timeout 1s/10s, ping 0/5s/1min, rate 10-1000/s, burst 1/10), a connection chunk size, 1-8 (quick) / 1-16 (thorough) frames - valid messages of the 5 client types (events freshly signed with 4 fixed keys, content and tag values from the NIP-01-sensitive set: < > & U+2028/9, controls, astral characters, quotes, backslashes; #a addresses with colons in d) mixed with 27 labelled corruptions (binary frame, invalid UTF-8, non-JSON, unknown label, arity, types, upper-case/short hex, kind out of range, negative since/limit, unknown filter key, altered content/id/pubkey/sig, forged signature, ...), 0-8 handler emissions, clock jumps and a schedule. Oracle: handler-received sequence == deliverable frames in order, each once, field-equal; client-received frames == emissions in order (JSON-equal) plus exactly one rejection per non-deliverable frame; orderly close ends the session. Non-trivial: at least two frames; distinct = distinct (case, schedule) hash.",
+		Assumptions: []string{"the wire encoder and the canonical serializer/signer of the harness (ref.Canonical, btcec Sign) are the reference for 'well-formed' and 'authentic'", "loss, duplication and reordering of bytes are not injected (TCP does not exhibit them)"}}
+}
